@@ -1,6 +1,6 @@
 SPECIFICATION Spec
 CONSTANTS Steps = 2
-  Alphabet = {"tick", "tick40", "conn1", "conn2", "cmd1", "cmd2", "err1", "err2", "partial1", "eof1", "hangup1", "rst2", "hberr", "coerr", "pi_err1", "inputto_err1", "dest_self1", "quit1", "netdead_err", "logon_err", "connect_err", "ttype_err1", "reset_err", "cleanup_err", "recon1", "hb_ok", "co_ok", "console_cmd", "console_err", "console_eof"}
+  Alphabet = {"tick", "tick40", "conn1", "conn2", "cmd1", "cmd2", "err1", "err2", "partial1", "eof1", "hangup1", "rst2", "hberr", "coerr", "copair", "copair2", "pi_err1", "inputto_err1", "dest_self1", "quit1", "netdead_err", "logon_err", "connect_err", "ttype_err1", "reset_err", "cleanup_err", "recon1", "hb_ok", "co_ok", "console_cmd", "console_err", "console_eof"}
   Modes = {"network", "console"}
   Handlers = {"ok", "failing"}
   Sim = FALSE
